@@ -69,7 +69,23 @@ TRANSLATORS = {
 }
 
 
+# Soft mode (set by ./pkv after a tie broke): translators, Coq builds and Props checks that fail are recorded in
+# SOFT_TIES instead of raised, so that the check goes on with the last generated files / compiled models and runs
+# its correspondence and oracles - that run IS the search for a concrete failing input.
+SOFT = False
+SOFT_TIES = []
+
+
 def run_translator(name):
+    if SOFT:
+        try:
+            return _run_translator(name)
+        except Tie as t:
+            SOFT_TIES.append(t); return None
+    return _run_translator(name)
+
+
+def _run_translator(name):
     script, srcs, out = TRANSLATORS[name]
     cmd = [sys.executable, os.path.join(VERIF, "translators", script)] + \
           [os.path.join(REPO, s) for s in srcs] + [os.path.join(COQ, out)]
@@ -101,11 +117,39 @@ def strip_comments(src):
     return "".join(out)
 
 
+CURRENT = None     # (property id, [coq targets]) of the running check: the gate then covers that property's closure
+
+
+def coq_closure(targets):
+    """the .v files the given .vo targets depend on, transitively (coqdep)"""
+    vs = sorted(os.path.relpath(p, COQ) for p in glob.glob(os.path.join(COQ, "theories", "**", "*.v"), recursive=True))
+    rc, out = sh(["coqdep", "-Q", "theories", "PK"] + vs, cwd=COQ, timeout=300)
+    deps = {}
+    for line in out.replace("\\\n", " ").splitlines():
+        if ":" not in line: continue
+        lhs, rhs = line.split(":", 1)
+        vo = [t for t in lhs.split() if t.endswith(".vo")]
+        if not vo: continue
+        deps.setdefault(vo[0], set()).update(t for t in rhs.split() if t.endswith(".vo"))
+    seen, todo = set(), [t for t in targets]
+    while todo:
+        t = todo.pop()
+        if t in seen: continue
+        seen.add(t); todo.extend(deps.get(t, ()))
+    return sorted(os.path.join(COQ, t[:-1]) for t in seen if os.path.exists(os.path.join(COQ, t[:-1])))
+
+
 def hygiene_gate():
-    """No Admitted/admit/Axiom/Parameter/... anywhere in the development (comments ignored);
-    top-level Variable/Hypothesis outside a section would also be an axiom."""
+    """No Admitted/admit/Axiom/Parameter/... in the development (comments ignored); top-level
+    Variable/Hypothesis outside a section would also be an axiom.  During `./pkv check Cnn` the gate covers
+    every file Props/Cnn.vo and the check's targets depend on (so an unfinished file of another property
+    cannot raise an alarm here); `./pkv setup` and a call without a running check cover everything."""
     bad = []
-    for path in sorted(glob.glob(os.path.join(COQ, "theories", "**", "*.v"), recursive=True)):
+    if CURRENT is not None:
+        paths = coq_closure(["theories/Props/%s.vo" % CURRENT[0]] + list(CURRENT[1]))
+    else:
+        paths = sorted(glob.glob(os.path.join(COQ, "theories", "**", "*.v"), recursive=True))
+    for path in paths:
         src = strip_comments(open(path).read())
         src_nostr = re.sub(r'"[^"]*"', '""', src)
         for m in FORBIDDEN.finditer(src_nostr):
@@ -137,6 +181,15 @@ def coq_makefile():
 
 
 def coq_build(targets, timeout=COQ_TIMEOUT):
+    if SOFT:
+        try:
+            return _coq_build(targets, timeout, keep_going=True)
+        except Tie as t:
+            SOFT_TIES.append(t); return t.detail
+    return _coq_build(targets, timeout)
+
+
+def _coq_build(targets, timeout=COQ_TIMEOUT, keep_going=False):
     """Full .vo build of the given .vo targets (relative to coq/). Returns make output."""
     # one lock per theory area (Auth, Psl, Wire, ...): builds of different areas run concurrently,
     # they only share the stable Lib layer
@@ -144,7 +197,7 @@ def coq_build(targets, timeout=COQ_TIMEOUT):
         coq_makefile()
     area = targets[0].split("/")[1] if targets and targets[0].count("/") >= 2 else "all"
     with Lock("coq-" + area):
-        rc, out = sh(["make", "-j%d" % NPROC] + targets, cwd=COQ, timeout=timeout)
+        rc, out = sh(["make", "-j%d" % NPROC] + (["-k"] if keep_going else []) + targets, cwd=COQ, timeout=timeout)
     if rc != 0:
         m = re.search(r'File "([^"]+)", line (\d+)', out)
         where = "%s:%s" % (m.group(1), m.group(2)) if m else "?"
@@ -153,6 +206,15 @@ def coq_build(targets, timeout=COQ_TIMEOUT):
 
 
 def props_check(prop):
+    if SOFT:
+        try:
+            return _props_check(prop)
+        except Tie as t:
+            SOFT_TIES.append(t); return [], {"closed": 0, "with_allowed_axioms": []}
+    return _props_check(prop)
+
+
+def _props_check(prop):
     """Rebuild Props/<prop>.v (always recompiled so Print Assumptions output is captured),
     returning (n_theorems, assumptions: {theorem: text})."""
     rel = "theories/Props/%s" % prop
